@@ -1,6 +1,7 @@
 package rules
 
 import (
+	"os"
 	"fmt"
 	"go/token"
 	"go/types"
@@ -653,6 +654,8 @@ func runC03(c *engine.Ctx) {
 
 	// ---- R10 both ends get the configured packet size from a legacy file too (shared with C18.R14) ----
 	checkLegacyConversion(c, "R10")
+	checkDeadlineRearmed(c, "R12")
+	checkNoResend(c, "R13")
 
 	// ---- R11 a failed write retires the work connection ----
 	c.Rule("R11", "server udp proxy: the goroutine that writes user datagrams to the work connection closes that connection when a write fails — only the reader asks for a replacement, and it notices nothing as long as its own reads succeed")
@@ -701,4 +704,140 @@ func runC03(c *engine.Ctx) {
 		}
 	}
 	c.Floor(n11, 1)
+}
+
+// checkDeadlineRearmed (R12): an idle timeout on a datagram socket is a deadline that is pushed forward before every
+// read. Armed once in front of the read loop it is an absolute lifetime: after that many seconds every read fails, however
+// busy the socket is, and the replies of a long-lived flow are dropped.
+func checkDeadlineRearmed(c *engine.Ctx, rule string) {
+	c.Rule(rule, "where a read deadline derived from time.Now() guards reads that sit in a loop, the deadline call is re-executed in that loop (it lies on the way from one read to the next)")
+	p := c.P
+	n := 0
+	isRead := func(call ssa.CallInstruction) bool {
+		o := engine.CalleeObj(call)
+		if o == nil {
+			return false
+		}
+		switch o.Name() {
+		case "Read", "ReadFromUDP", "ReadFrom", "ReadMsgUDP":
+			return true
+		case "ReadMsg", "ReadMsgInto": // pkg/msg: the connection is the first argument
+			return o.Pkg() != nil && strings.HasSuffix(o.Pkg().Path(), "/pkg/msg")
+		}
+		return false
+	}
+	for _, f := range p.RepoFuncs() {
+		if f.Pkg == nil {
+			continue
+		}
+		rel := strings.TrimPrefix(f.Pkg.Pkg.Path(), engine.ModPath+"/")
+		if !(rel == "pkg/proto/udp" || rel == "server/proxy" || rel == "client/proxy" || rel == "client/visitor" || rel == "pkg/nathole") {
+			continue
+		}
+		var deadlines, reads []ssa.CallInstruction
+		engine.ForEachInstr(f, func(in ssa.Instruction) {
+			call, ok := in.(ssa.CallInstruction)
+			if !ok {
+				return
+			}
+			if _, isDefer := in.(*ssa.Defer); isDefer {
+				return
+			}
+			o := engine.CalleeObj(call)
+			if o == nil {
+				return
+			}
+			if o.Name() == "SetReadDeadline" || o.Name() == "SetDeadline" {
+				args := engine.CallArgs(call)
+				src := engine.Provenance(args[len(args)-1], engine.ProvOpts{})
+				for k := range src.Calls {
+					if k.Pkg() != nil && k.Pkg().Path() == "time" && k.Name() == "Now" {
+						deadlines = append(deadlines, call)
+					}
+				}
+			}
+			if isRead(call) {
+				reads = append(reads, call)
+			}
+		})
+		if os.Getenv("FRPSA_DEBUG_C03") != "" && (len(deadlines) > 0) {
+			fmt.Fprintf(os.Stderr, "C03R12 %s deadlines=%d reads=%d\n", p.FuncName(f), len(deadlines), len(reads))
+		}
+		rootOf := func(v ssa.Value) ssa.Value { // the connection behind promoted methods and interface conversions
+			v = engine.Unwrap(v)
+			if mi, ok := v.(*ssa.MakeInterface); ok {
+				v = engine.Unwrap(mi.X)
+			}
+			r, _ := engine.FieldPath(v)
+			return r
+		}
+		for _, d := range deadlines {
+			dr := rootOf(engine.CallArgs(d)[0])
+			for _, r := range reads {
+				rr := rootOf(engine.CallArgs(r)[0])
+				if os.Getenv("FRPSA_DEBUG_C03") != "" {
+					fmt.Fprintf(os.Stderr, "   pair %s | %s same=%v d->r=%v r->r=%v\n", engine.Describe(dr), engine.Describe(rr), dr == rr || engine.SameExpr(dr, rr), engine.InstrReaches(d, r), engine.InstrReaches(r, r))
+				}
+				if !(dr == rr || engine.SameExpr(dr, rr)) {
+					continue
+				}
+				if !engine.InstrReaches(d, r) || !engine.InstrReaches(r, r) {
+					continue // not guarding this read, or the read is not in a loop
+				}
+				n++
+				c.Check(engine.InstrReaches(r, d), fmt.Sprintf("%s>deadline-rearmed#%d", p.FuncName(f), n), d.Pos(), 2, nil,
+					"the read deadline is pushed forward before every read of the loop (armed once it is an absolute lifetime of the socket)")
+			}
+		}
+	}
+	c.Floor(n, 2)
+}
+
+// checkNoResend (R13): the sudp visitor's dispatcher hands the datagram that triggered a connection to the worker, which
+// sends it. When the worker returns (the visitor connection died) the next worker must start from a datagram taken from
+// the send queue after that — a datagram kept across iterations is delivered twice.
+func checkNoResend(c *engine.Ctx, rule string) {
+	c.Rule(rule, "SUDPVisitor.dispatcher: between two hand-overs to worker a new datagram is received from sendCh (the one already handed over is never handed over again)")
+	f := fn(c, "client/visitor.SUDPVisitor.dispatcher")
+	worker := method(c, "client/visitor", "SUDPVisitor", "worker")
+	sendF := field(c, "client/visitor", "SUDPVisitor", "sendCh")
+	if f == nil || worker == nil || sendF == nil {
+		return
+	}
+	n := 0
+	for _, wc := range engine.CallsTo(f, worker) {
+		wc := wc
+		n++
+		c.AllPaths("client/visitor.SUDPVisitor.dispatcher>no-resend", engine.PathCheck{Fn: f, From: wc, KeepLoopFacts: true,
+			Sink: func(in ssa.Instruction) bool { return engine.IsReturn(in) || in == ssa.Instruction(wc) },
+			Event: func(in ssa.Instruction) string {
+				switch x := in.(type) {
+				case *ssa.UnOp:
+					if x.Op == token.ARROW {
+						if lf, _ := engine.LoadedField(x.X); lf == sendF {
+							return "received"
+						}
+					}
+				case *ssa.Select:
+					for _, s := range x.States {
+						if s.Dir == types.RecvOnly {
+							if lf, _ := engine.LoadedField(s.Chan); lf == sendF {
+								return "received"
+							}
+						}
+					}
+				}
+				return ""
+			},
+			Pred: func(st *engine.PathState) string {
+				if engine.IsReturn(st.Sink) {
+					return ""
+				}
+				if !st.HasEvent("received") {
+					return "the worker is started again without a datagram having been taken from sendCh since the last hand-over: the previous datagram is sent a second time"
+				}
+				return ""
+			}}, "a fresh datagram per hand-over")
+	}
+	c.Floor(n, 1)
 }
